@@ -487,7 +487,16 @@ def source_field(ctx):
     p_lo = np.where(ext, spec.pmin - a * cs, spec.pmin)
     p_hi = np.where(ext, spec.pmax + b * cs, spec.pmax)
     ns = m + a + b
-    sreg = df.Region(p1=p_lo.tolist(), p2=p_hi.tolist(), dims=spec.dims, units=spec.units)
+    sdims = spec.dims
+    renamed = None
+    if rng.random() < 0.25:
+        # the source lives on a mesh whose directions carry other names - the target's names
+        # in another order, or names of its own: "a source cell containing that centre" is a
+        # statement about points, which are tuples of numbers
+        names = spec.dim_names
+        renamed = "permuted" if (nd > 1 and rng.random() < 0.6) else "foreign"
+        sdims = names[1:] + names[:1] if renamed == "permuted" else [f"s{j}" for j in range(nd)]
+    sreg = df.Region(p1=p_lo.tolist(), p2=p_hi.tolist(), dims=sdims, units=spec.units)
     smesh = df.Mesh(region=sreg, n=[int(k) for k in ns])
     sarr = gen.rand_values(rng, (*[int(k) for k in ns], nvdim), dtype)
     skw = {"dtype": NP_DTYPE[dtype]} if dtype == "complex" else {}
@@ -498,7 +507,17 @@ def source_field(ctx):
     kw = {"vdims": vd}
     if dtype == "complex":
         kw["dtype"] = NP_DTYPE[dtype]
-    g = _hand_over(ctx, "C02.accepted.field", mesh, nvdim, src, kw, info)
+    if renamed:
+        info["source_dimension_names"] = renamed
+        try:
+            g = df.Field(mesh, nvdim=nvdim, value=src, **kw)
+            info["how"] = "ctor"
+            ctx.event("source.renamed_dims.accepted")
+        except Exception:  # noqa: BLE001 - refusing a source with other names is not judged
+            ctx.event("source.renamed_dims.refused")
+            return
+    else:
+        g = _hand_over(ctx, "C02.accepted.field", mesh, nvdim, src, kw, info)
     ctx.sig(("source", nd, nvdim, dtype, info["how"], bool(ext.any()), same,
              tuple(int(np.sign(x - y)) for x, y in zip(m, nt))),
             nontrivial=int(np.prod(nt)) >= 2 and int(np.prod(ns)) >= 2)
@@ -734,10 +753,46 @@ def rejections(ctx):
               **base)
 
 
+def label_forms(ctx):
+    """Label forms at the edge of "all component counts and labels": the explicit "no labels"
+    form vdims=[] (whatever the number of components), and labels that are the names of
+    attributes Field has removed (value, average, ...): either such a label is refused when
+    the field is made, or the component is reachable under it like any other."""
+    rng = ctx.rng
+    spec = _spec(ctx)
+    mesh = spec.mesh()
+    n = tuple(int(k) for k in spec.n)
+    nvdim = int(rng.integers(2, 5)) if rng.random() < 0.5 else spec.nd
+    arr = gen.rand_values(rng, (*n, nvdim), "float")
+    info = {"ndim": spec.nd, "nvdim": nvdim, "n": spec.n}
+    if nvdim > 1:
+        ok, f = ctx.expect_ok("C02.accepted.array",
+                              lambda: df.Field(mesh, nvdim=nvdim, value=arr, vdims=[]),
+                              what=dict(info, vdims=[]))
+        if ok:
+            ctx.check("C02.value.array", np.array_equal(f.array, arr) and f.vdims is None,
+                      vdims_given=[], got_vdims=f.vdims, **info)
+    removed = gen.pick(rng, ["value", "average", "integral", "project", "write"])
+    labels = [removed] + ["b", "c", "d", "e"][: nvdim - 1]
+    try:
+        g = df.Field(mesh, nvdim=nvdim, value=arr, vdims=labels)
+    except Exception:  # noqa: BLE001 - refusing the label is fine
+        ctx.event("label_of_removed_attribute.refused")
+        return
+    ctx.event("label_of_removed_attribute.accepted")
+    okc, comp = ctx.expect_ok("C02.component.accepted", lambda: getattr(g, removed),
+                              what=dict(info, labels=labels))
+    if okc:
+        ctx.check("C02.component.column", isinstance(comp, df.Field) and np.array_equal(comp.array[..., 0], arr[..., 0]),
+                  labels=labels, **info)
+
+
 def run_case(ctx, i):
     kind = i % 5
     if kind == 0:
         basic(ctx)
+        if ctx.rng.random() < 0.15:
+            label_forms(ctx)
     elif kind == 1:
         dictionary(ctx)
     elif kind == 2:
